@@ -170,7 +170,7 @@ theorem ofList_depth_tail (v : Value) (rest : List Value) :
     (Values.ofList rest).depth ≤ (Values.ofList (v :: rest)).depth := by
   simp only [Values.ofList, Values.depth]; omega
 
-theorem Values.depth_lt_of_len (vs : Values) (h : (encodes vs).length + 1 < USIZE) : vs.depth + 1 < USIZE := by
+theorem Values.depth_lt_of_len (vs : Values) (h : (encodes vs).length + 1 < I32LIM) : vs.depth + 1 < I32LIM := by
   have h1 := Values.depth_le_ntoks vs
   have h2 := Values.ntoks_le vs
   omega
@@ -206,7 +206,7 @@ theorem findCtxGo_suffixes (tag : Nat) (more : Bytes) : ∀ vals : List Value, (
 
 /-- `find_ctx` on the written fields -/
 theorem findCtx_fields (vals : List Value) (tag : Nat) (more : Bytes) (h : ∀ v ∈ vals, CtxVal v)
-    (hd : (Values.ofList vals).depth + 1 < USIZE) :
+    (hd : (Values.ofList vals).depth + 1 < I32LIM) :
     findCtx (encodes (Values.ofList vals) ++ endByte :: more) tag = .ok (suffixAt vals tag more) := by
   unfold findCtx
   rw [elements_encodes _ more (ofList_wf vals fun v hv => (h v hv).choose_spec.2.2) hd]
@@ -860,9 +860,9 @@ theorem decodeSlotAt_val (o n : Bool) (ty : Ty) (t : Tag) (a : Val) (x : Value) 
 /-! ### the round trip, by mutual structural induction over the schema -/
 
 theorem decodeSeqWith_encodes (el : Ty) (more : Bytes)
-    (hP : ∀ (val : Val) (v : Value) (X : Bytes), encodeVal false el .anon val = some v → (encode v).length + 1 < USIZE →
+    (hP : ∀ (val : Val) (v : Value) (X : Bytes), encodeVal false el .anon val = some v → (encode v).length + 1 < I32LIM →
       decodeVal false el (encode v ++ X) = .ok val) :
-    ∀ (vs : Vals) (xs : List Value), encodeElems el vs = some xs → (encodes (Values.ofList xs)).length + 1 < USIZE →
+    ∀ (vs : Vals) (xs : List Value), encodeElems el vs = some xs → (encodes (Values.ofList xs)).length + 1 < I32LIM →
       decodeSeqWith (decodeVal false el) ((childSuffixes (Values.ofList xs) more).map .ok) = .ok vs
   | .nil, xs, h, _ => by
     simp only [encodeElems, Option.some.injEq] at h; subst h; rfl
@@ -875,19 +875,19 @@ theorem decodeSeqWith_encodes (el : Ty) (more : Bytes)
       | none => simp [ha, hr] at h
       | some rs =>
         simp only [ha, hr, Option.some.injEq] at h; subst h
-        have hdx : (encode x).length + 1 < USIZE := by
+        have hdx : (encode x).length + 1 < I32LIM := by
           have := ofList_len_mem (x :: rs) x (by simp); omega
-        have hdr : (encodes (Values.ofList rs)).length + 1 < USIZE := by
+        have hdr : (encodes (Values.ofList rs)).length + 1 < I32LIM := by
           have := ofList_len_tail x rs; omega
         simp only [Values.ofList, childSuffixes, List.map_cons, decodeSeqWith, Res.ok_bind, hP a x _ ha hdx,
           decodeSeqWith_encodes el more hP r rs hr hdr, Res.pure_eq]
 
 /-- `[T; N]`: the items of a written TLV array pushed into a `Vec<T, N>` with room for `room` more -/
 theorem decodeSeqCap_encodes (el : Ty) (more : Bytes)
-    (hP : ∀ (val : Val) (v : Value) (X : Bytes), encodeVal false el .anon val = some v → (encode v).length + 1 < USIZE →
+    (hP : ∀ (val : Val) (v : Value) (X : Bytes), encodeVal false el .anon val = some v → (encode v).length + 1 < I32LIM →
       decodeVal false el (encode v ++ X) = .ok val) :
     ∀ (vs : Vals) (xs : List Value) (room : Nat), encodeElems el vs = some xs →
-      (encodes (Values.ofList xs)).length + 1 < USIZE →
+      (encodes (Values.ofList xs)).length + 1 < I32LIM →
       decodeSeqCap (decodeVal false el) room ((childSuffixes (Values.ofList xs) more).map .ok) =
         if vs.length ≤ room then .ok vs else .err .invalid
   | .nil, xs, room, h, _ => by
@@ -902,9 +902,9 @@ theorem decodeSeqCap_encodes (el : Ty) (more : Bytes)
       | none => simp [ha, hr] at h
       | some rs =>
         simp only [ha, hr, Option.some.injEq] at h; subst h
-        have hdx : (encode x).length + 1 < USIZE := by
+        have hdx : (encode x).length + 1 < I32LIM := by
           have := ofList_len_mem (x :: rs) x (by simp); omega
-        have hdr : (encodes (Values.ofList rs)).length + 1 < USIZE := by
+        have hdr : (encodes (Values.ofList rs)).length + 1 < I32LIM := by
           have := ofList_len_tail x rs; omega
         cases room with
         | zero =>
@@ -920,7 +920,7 @@ theorem decodeSeqCap_encodes (el : Ty) (more : Bytes)
 
 mutual
 theorem decodeVal_encode : ∀ (ty : Ty) (nl : Bool) (t : Tag) (val : Val) (v : Value) (X : Bytes),
-    ty.wf → t.wf → encodeVal nl ty t val = some v → (encode v).length + 1 < USIZE →
+    ty.wf → t.wf → encodeVal nl ty t val = some v → (encode v).length + 1 < I32LIM →
     decodeVal nl ty (encode v ++ X) = .ok val
   | .uint w d, nl, t, val, v, X, _hty, _ht, h, _hd => by
     cases val <;> simp only [encodeVal, reduceCtorEq] at h
@@ -1025,9 +1025,9 @@ theorem decodeVal_encode : ∀ (ty : Ty) (nl : Bool) (t : Tag) (val : Val) (v : 
         obtain ⟨htag, _, htyw, hx⟩ := encodeAlts_shape alts i tag ty hty.1 hg
         obtain ⟨hxw, hxt⟩ := hx false (.ctx tag) a x (by simp only [Tag.wf]; omega) ha
         have hcl := encode_cont_len t .struct (Values.cons x .nil)
-        have hxl : (encode x).length + 1 < USIZE := by
+        have hxl : (encode x).length + 1 < I32LIM := by
           simp only [encodes, List.append_nil] at hcl; omega
-        have hxd : x.depth + 1 < USIZE := by
+        have hxd : x.depth + 1 < I32LIM := by
           have h1 := Value.depth_le_ntoks x
           have h2 := Value.ntoks_le x
           omega
@@ -1099,7 +1099,7 @@ theorem decodeVal_encode : ∀ (ty : Ty) (nl : Bool) (t : Tag) (val : Val) (v : 
     · simp at h
 theorem decodeAlts_encode : ∀ (alts : Alts) (i tag : Nat) (ty : Ty) (base : Nat) (a : Val) (x : Value) (X : Bytes),
     alts.wf → alts.tags.Nodup → alts.get i = some (tag, ty) → encodeVal false ty (.ctx tag) a = some x →
-    (encode x).length + 1 < USIZE →
+    (encode x).length + 1 < I32LIM →
     decodeAlts alts base tag (encode x ++ X) = .ok (.variant (base + i) a)
   | .nil, i, tag, ty, base, a, x, X, _, _, hg, _, _ => by simp [Alts.get] at hg
   | .cons tg ty' rest, 0, tag, ty, base, a, x, X, hw, _, hg, ha, hl => by
@@ -1118,7 +1118,7 @@ theorem decodeAlts_encode : ∀ (alts : Alts) (i tag : Nat) (ty : Ty) (base : Na
 theorem decodeFields_encode : ∀ (fs : Fields) (ss : Slots) (pre vals : List Value) (more : Bytes),
     fs.wf → fs.tags.Nodup → encodeFields fs ss = some vals →
     (∀ v ∈ pre, CtxVal v) → (∀ v ∈ pre, ∀ tag ∈ fs.tags, ctxTagOf v ≠ some tag) →
-    (encodes (Values.ofList (pre ++ vals))).length + 1 < USIZE →
+    (encodes (Values.ofList (pre ++ vals))).length + 1 < I32LIM →
     decodeFields (encodes (Values.ofList (pre ++ vals)) ++ endByte :: more) fs = .ok ss
   | .nil, ss, pre, vals, more, _, _, h, _, _, _ => by
     cases ss <;> simp only [encodeFields, reduceCtorEq, Option.some.injEq] at h
@@ -1219,7 +1219,7 @@ theorem decodeFields_encode : ∀ (fs : Fields) (ss : Slots) (pre vals : List Va
                 · exact hx
                 · exact hc v hv
             rw [findCtx_fields _ tag more hall (Values.depth_lt_of_len _ hd), suffixAt_skip pre _ tag more hpre_ne, suffixAt_head _ _ _ _ hxt]
-            have hdx : (encode x).length + 1 < USIZE := by
+            have hdx : (encode x).length + 1 < I32LIM := by
               have := ofList_len_mem (pre ++ x :: rs) x (by simp); omega
             have hdec := decodeVal_encode ty n (.ctx tag) a x (encodes (Values.ofList rs) ++ endByte :: more)
               htyw htw ha hdx
@@ -1278,7 +1278,7 @@ theorem decodeFields_encode : ∀ (fs : Fields) (ss : Slots) (pre vals : List Va
                 · exact hc v hv
             rw [decodeFields_consSkip, findCtx_fields _ tag more hall (Values.depth_lt_of_len _ hd), suffixAt_skip pre _ tag more hpre_ne,
               suffixAt_head _ _ _ _ hxt]
-            have hdx : (encode x).length + 1 < USIZE := by
+            have hdx : (encode x).length + 1 < I32LIM := by
               have := ofList_len_mem (pre ++ x :: rs) x (by simp); omega
             have hdec := decodeVal_encode ty false (.ctx tag) a x (encodes (Values.ofList rs) ++ endByte :: more)
               htyw htw ha hdx
@@ -1306,7 +1306,7 @@ integers or of structures, octet and UTF-8 strings, enums, `Option`, `Nullable`)
 `from_tlv` decodes from the bytes of the derived `to_tlv` (followed by anything) is the value that
 was encoded. -/
 theorem struct_roundtrip (ty : Ty) (val : Val) (v : Value) (X : Bytes) (hty : ty.wf)
-    (hv : toValue ty val = some v) (hl : (encode v).length + 1 < USIZE) :
+    (hv : toValue ty val = some v) (hl : (encode v).length + 1 < I32LIM) :
     decodeStruct ty (encode v ++ X) = .ok val := by
   exact decodeVal_encode ty false .anon val v X hty trivial hv hl
 
@@ -1317,7 +1317,7 @@ it) decode, as a `[T; N]`, to the `k` items followed by `N - k` copies of `T::de
 refused (`ConstraintError`) when `k > N`.  (`k = N` is the round trip.) -/
 theorem fixarr_decodes_array (n : Nat) (el : Ty) (d : Val) (t : Tag) (vs : Vals) (v : Value) (X : Bytes)
     (hty : el.wf) (hv : encodeVal false (.array none el) t (.arr vs) = some v)
-    (hl : (encode v).length + 1 < USIZE) :
+    (hl : (encode v).length + 1 < I32LIM) :
     decodeVal false (.fixarr n el d) (encode v ++ X) =
       if vs.length ≤ n then .ok (.arr (padTo n d vs)) else .err .invalid := by
   simp only [encodeVal, capOk, if_true] at hv
